@@ -274,6 +274,8 @@ protected:
     const void* example_unsandboxed_ptr,
     rlbox_verif_sandbox* (*expensive_sandbox_finder)(const void*))
   {
+    // (a pointer representation has just been fetched from sandbox memory: a moment at which the adversary may act)
+    if (verif_backend_hook) verif_backend_hook("be.xlate");
     auto sandbox = expensive_sandbox_finder(example_unsandboxed_ptr);
     detail::dynamic_check(sandbox != nullptr, "verif: example pointer is in no live sandbox");
     return sandbox->template impl_get_unsandboxed_pointer<T>(p);
